@@ -410,3 +410,52 @@ def run_master_case(case):
         res.label('master:via=%s' % v)
     res.key = {'k': 'master', 'r': reqs, 'o': case.get('ops')}
     return res
+
+
+# ------------------------------------------------------------------------------
+# worker submission: the description a worker sizes its own allotment from
+#
+def run_worker_submit(case):
+    """real Master.submit_workers: the worker description which travels to the worker through the
+    registry (`raptor.<uid>.cfg`, read by DefaultWorker.__init__ to size its core / GPU pool) and the
+    one in the task pushed to the agent both say what the application described - also when it
+    used the deprecated attribute names"""
+    from radical.pilot.task_description import RAPTOR_WORKER
+    res = CaseResult()
+    res.label('worker_submission')
+    net = Net(auto=True)
+    m = hollow_master(net)
+    want = {'ranks': max(1, int(case.get('ranks') or 1)),
+            'cores_per_rank': max(1, int(case.get('cores') or 1)),
+            'gpus_per_rank': float(int(case.get('gpus') or 0)),
+            'mem_per_rank': int(case.get('mem') or 0)}
+    old = bool(case.get('deprecated'))
+    names = {'ranks': 'cpu_processes', 'cores_per_rank': 'cpu_threads',
+             'gpus_per_rank': 'gpu_processes', 'mem_per_rank': 'mem_per_process'} if old else \
+            {k: k for k in want}
+    d = {'mode': RAPTOR_WORKER}
+    for k, v in want.items():
+        d[names[k]] = v
+    if case.get('mixed') and old:
+        d['cores_per_rank'] = d.pop('cpu_threads')         # deprecated and current names mixed
+    try:
+        uids = m.submit_workers([rp.TaskDescription(d)])
+    except Exception as e:        # noqa
+        res.fail(exc_sig('submit_workers_raised', e), repr(e))
+        return res
+    res.nontrivial = old
+    if old:
+        res.label('worker_submission:deprecated_names')
+    for uid in uids or []:
+        reg = m._reg['raptor.%s.cfg' % uid]
+        psh = count_puts(net, rpc.AGENT_STAGING_INPUT_QUEUE, uid)
+        docs = [('registry', reg)] + [('task', t.get('description') or {}) for t in psh]
+        if not psh:
+            res.fail('worker_not_pushed', uid)
+        for where, doc in docs:
+            for k, v in want.items():
+                if (doc or {}).get(k) != v:
+                    res.fail('worker_description_%s:%s' % (where, k),
+                             '%s: %s copy says %s=%r, described %r (%s)'
+                             % (uid, where, k, (doc or {}).get(k), v, 'deprecated names' if old else 'current names'))
+    return res
